@@ -829,6 +829,13 @@ func (e *Env) evalCall(n *ECall) (Val, error) {
 		}
 		return e.applyPred(p, args)
 	}
+	if g, ok := f.e.specs.ghosts[id.Name]; ok && len(g.Params) == 2 && len(args) == 2 {
+		key, t, err := f.ghost2Key(g)
+		if err != nil {
+			return Val{}, err
+		}
+		return Val{K: kindOf(t), T: t, Tm: app("select", app("select", f.hs.read(e.heap, key), args[0].Tm), args[1].Tm)}, nil
+	}
 	if g, ok := f.e.specs.ghosts[id.Name]; ok && len(g.Params) == 1 {
 		t, err := f.e.resolveType(g.Pkg, g.T)
 		if err != nil {
@@ -1010,6 +1017,13 @@ func (e *Env) havocLocation(h *Heap, x Expr) (*Heap, error) {
 				key := f.ghostKey(g.Name, sortOfType(t), false, "")
 				return f.hs.havocKeys(h, map[string]bool{key: true}), nil
 			}
+			if len(g.Params) == 2 {
+				key, _, err := f.ghost2Key(g)
+				if err != nil {
+					return nil, err
+				}
+				return f.hs.havocKeys(h, map[string]bool{key: true}), nil
+			}
 			it, err := f.e.resolveType(g.Pkg, g.Params[0].T)
 			if err != nil {
 				return nil, err
@@ -1058,6 +1072,30 @@ func (e *Env) havocLocation(h *Heap, x Expr) (*Heap, error) {
 				}
 				key := f.ghostKey(chanClosedGhost(a.T), sortBool, true, sortInt)
 				return pointwise(key, a.Tm), nil
+			}
+			if g, ok := f.e.specs.ghosts[id.Name]; ok && len(g.Params) == 2 && len(n.Args) == 2 {
+				a, err := e.eval(n.Args[0])
+				if err != nil {
+					return nil, err
+				}
+				b, err := e.eval(n.Args[1])
+				if err != nil {
+					return nil, err
+				}
+				key, _, err := f.ghost2Key(g)
+				if err != nil {
+					return nil, err
+				}
+				if f.dirtyKey == nil {
+					f.dirtyKey = map[string]bool{}
+				}
+				f.dirtyKey[key] = true
+				arr := f.hs.read(h, key)
+				inner := arrayElemSort(f.hs.sorts[key])
+				nv := f.c.freshConst("mod."+key, arrayElemSort(inner))
+				nh := f.hs.write(h, key, f.c.define("Hm."+key, f.hs.sorts[key], app("store", arr, a.Tm, app("store", app("select", arr, a.Tm), b.Tm, nv))))
+				nh.obj = a.Tm
+				return nh, nil
 			}
 			if g, ok := f.e.specs.ghosts[id.Name]; ok && len(g.Params) == 1 && len(n.Args) == 1 {
 				a, err := e.eval(n.Args[0])
@@ -1136,4 +1174,29 @@ func (e *Env) evalAddr(x Expr) (string, error) {
 		return "", fmt.Errorf("expected a lock/pointer expression")
 	}
 	return v.Tm, nil
+}
+
+// ghost2Key registers a two-parameter ghost (nested arrays).
+func (f *FnCtx) ghost2Key(g *GhostSpec) (string, types.Type, error) {
+	t, err := f.e.resolveType(g.Pkg, g.T)
+	if err != nil {
+		return "", nil, err
+	}
+	t1, err := f.e.resolveType(g.Pkg, g.Params[0].T)
+	if err != nil {
+		return "", nil, err
+	}
+	t2, err := f.e.resolveType(g.Pkg, g.Params[1].T)
+	if err != nil {
+		return "", nil, err
+	}
+	key := "G." + g.Name
+	if _, ok := f.hs.sorts[key]; !ok {
+		f.hs.regKey(key, "(Array "+sortOfType(t1)+" (Array "+sortOfType(t2)+" "+sortOfType(t)+"))")
+		if g.Stable {
+			f.hs.final[key] = true
+			f.hs.stable[key] = true
+		}
+	}
+	return key, t, nil
 }
